@@ -52,6 +52,10 @@ def worlds(tier: str, stats: Dict[str, Any]) -> Iterator[Any]:
             stats["transitions"] += 1
             yield dict(mode="file", T=T, ranks=[[list(i) for i in ms]], ties=False, no_corr=True)
             if all(i[1] > i[0] for i in ms):
+                # a very long trace (times beyond 2**31 us); computation on the legacy default stream 0
+                stats["transitions"] += 2
+                yield dict(mode="file", T=T, ranks=[[list(i) for i in ms]], ties=False, scale=2 ** 29 + 3)
+                yield dict(mode="file", T=T, ranks=[[list(i) for i in ms]], ties=False, streams={"P": 0})
                 # session slice: the same object was used for other analyses before
                 for pk in ("cp", "getters"):
                     stats["transitions"] += 1
@@ -113,13 +117,16 @@ def check(world) -> Dict[str, Any]:
         from mc import htaenv
 
         per_rank = {r: its for r, its in enumerate(world["ranks"])}
-        tas = [htaenv.load_world({r: ivworlds.events_for(its, no_corr=bool(world.get("no_corr")), spread=bool(world.get("prior")))
+        tas = [htaenv.load_world({r: ivworlds.events_for(its, no_corr=bool(world.get("no_corr")), spread=bool(world.get("prior")),
+                                                         scale=world.get("scale", 1), streams=world.get("streams"))
                                   for r, its in per_rank.items()})[0]]
         if world.get("prior"):
             htaenv.prior_session(tas[0], world["prior"])
         if world.get("prior_decode"):
             tas[0].t.decode_symbol_ids(use_shorten_name=True)
     exp = {r: expected(its) for r, its in per_rank.items()}
+    if world.get("scale"):
+        exp = {r: {k: v * world["scale"] for k, v in e.items()} for r, e in exp.items()}
 
     def run():
         df = ta.get_temporal_breakdown(visualize=False)
